@@ -7,8 +7,8 @@ Local Open Scope R_scope.
 
 Definition is_slice (it : item) : bool := match it with ISlice _ _ _ => true | _ => false end.
 
-Lemma norm_ints_slices (strict its : bool) (l : list item) : forall shape,
-  forallb is_slice l = true -> norm_ints strict its l shape = Ok l.
+Lemma norm_ints_slices (its : bool) (l : list item) : forall shape,
+  forallb is_slice l = true -> norm_ints its l shape = Ok l.
 Proof.
   induction l as [|it l IH]; intros shape Hs; [destruct shape; reflexivity|].
   cbn [forallb] in Hs. apply andb_true_iff in Hs. destruct Hs as [H1 H2].
@@ -28,18 +28,18 @@ Proof.
   rewrite IH by exact H2. destruct it; try discriminate; reflexivity.
 Qed.
 (* a tuple of exactly ndim slices that passes the "empty axes" test is left as it is *)
-Lemma norm_index_slices (strict its : bool) (l : list item) (shape : list Z) :
+Lemma norm_index_slices (its : bool) (l : list item) (shape : list Z) :
   forallb is_slice l = true -> length l = length shape -> empty_slice_check l shape = false ->
-  norm_index strict (ETuple l) shape its = Ok l.
+  norm_index (ETuple l) shape its = Ok l.
 Proof.
   intros Hs Hl Hc. unfold norm_index, norm_index_list, items_of.
   rewrite Hl, Nat.ltb_irrefl. cbn [andb]. rewrite (slices_no_ell l Hs). cbn [bind].
   rewrite norm_ints_slices by exact Hs. cbn [bind]. rewrite Hc, (slices_no_new l Hs), Hl, Nat.ltb_irrefl.
   reflexivity.
 Qed.
-Lemma norm_index_slices_empty (strict its : bool) (l : list item) (shape : list Z) :
+Lemma norm_index_slices_empty (its : bool) (l : list item) (shape : list Z) :
   forallb is_slice l = true -> length l = length shape -> empty_slice_check l shape = true ->
-  norm_index strict (ETuple l) shape its = ValueErr.
+  norm_index (ETuple l) shape its = ValueErr.
 Proof.
   intros Hs Hl Hc. unfold norm_index, norm_index_list, items_of.
   rewrite Hl, Nat.ltb_irrefl. cbn [andb]. rewrite (slices_no_ell l Hs). cbn [bind].
@@ -97,26 +97,26 @@ Qed.
 
 (* p[s_1, ..., s_d] with one (positive-step, non-empty) slice per axis: every axis is cut
    independently, nothing else happens *)
-Lemma getitem_nd_slices (strict : bool) (p : list Raxis) (items : list item) :
+Lemma getitem_nd_slices (p : list Raxis) (items : list item) :
   Forall valid p -> Forall2 good_item p items ->
   empty_slice_check items (shape_of p) = false ->
-  getitem strict p (ETuple items) = Ok (map2 sub_item p items) /\ Forall valid (map2 sub_item p items).
+  getitem p (ETuple items) = Ok (map2 sub_item p items) /\ Forall valid (map2 sub_item p items).
 Proof.
   intros Hv Hg Hc. destruct (getitem_nd_parts p items Hv Hg) as (H1 & H2 & H3 & H4 & H5).
   split; [|exact H3]. unfold getitem, getitem_expr.
   assert (Hl : length items = length (shape_of p)) by (unfold shape_of; rewrite map_length; exact H5).
-  rewrite (norm_index_slices strict true items _ H4 Hl Hc). cbn [bind]. rewrite H1. cbn [bind].
-  rewrite (norm_index_slices strict false items _ H4 Hl Hc). cbn [bind]. rewrite H2. cbn [bind].
+  rewrite (norm_index_slices true items _ H4 Hl Hc). cbn [bind]. rewrite H1. cbn [bind].
+  rewrite (norm_index_slices false items _ H4 Hl Hc). cbn [bind]. rewrite H2. cbn [bind].
   apply mk_part_valid. exact H3.
 Qed.
 (* ... and the one check the code makes before looking at the axes *)
-Lemma getitem_nd_empty_axis (strict : bool) (p : list Raxis) (items : list item) :
+Lemma getitem_nd_empty_axis (p : list Raxis) (items : list item) :
   forallb is_slice items = true -> length items = length p ->
-  empty_slice_check items (shape_of p) = true -> getitem strict p (ETuple items) = ValueErr.
+  empty_slice_check items (shape_of p) = true -> getitem p (ETuple items) = ValueErr.
 Proof.
   intros H4 H5 Hc. unfold getitem, getitem_expr.
   assert (Hl : length items = length (shape_of p)) by (unfold shape_of; rewrite map_length; exact H5).
-  rewrite (norm_index_slices_empty strict true items _ H4 Hl Hc). reflexivity.
+  rewrite (norm_index_slices_empty true items _ H4 Hl Hc). reflexivity.
 Qed.
 
 (* ---------- integers, ellipsis, too few indices ---------- *)
@@ -128,9 +128,9 @@ Definition to_slice (it : item) (n : Z) : item :=
   | _ => it
   end.
 
-Lemma norm_ints_mixed (strict : bool) (l : list item) (shape : list Z) :
+Lemma norm_ints_mixed (l : list item) (shape : list Z) :
   Forall2 int_ok l shape ->
-  norm_ints strict true l shape = Ok (map2 to_slice l shape) /\
+  norm_ints true l shape = Ok (map2 to_slice l shape) /\
   forallb is_slice (map2 to_slice l shape) = true /\
   existsb is_ell l = false /\ length (map2 to_slice l shape) = length shape /\ length l = length shape.
 Proof.
@@ -144,12 +144,12 @@ Proof.
 Qed.
 
 (* exactly ndim entries, each an in-range integer or a slice *)
-Lemma norm_index_full (strict : bool) (items : list item) (shape : list Z) :
+Lemma norm_index_full (items : list item) (shape : list Z) :
   Forall2 int_ok items shape ->
   empty_slice_check (map2 to_slice items shape) shape = false ->
-  norm_index strict (ETuple items) shape true = Ok (map2 to_slice items shape).
+  norm_index (ETuple items) shape true = Ok (map2 to_slice items shape).
 Proof.
-  intros Hok Hc. destruct (norm_ints_mixed strict items shape Hok) as (H1 & H2 & H3 & H4 & Hl).
+  intros Hok Hc. destruct (norm_ints_mixed items shape Hok) as (H1 & H2 & H3 & H4 & Hl).
   unfold norm_index, norm_index_list, items_of. rewrite Hl, Nat.ltb_irrefl. cbn [andb]. rewrite H3. cbn [bind].
   rewrite H1. cbn [bind]. rewrite Hc, (slices_no_new _ H2), H4, Nat.ltb_irrefl. reflexivity.
 Qed.
@@ -170,11 +170,11 @@ Proof.
 Qed.
 Lemma repeat_full_no_ell (k : nat) : existsb is_ell (repeat full_slice k) = false.
 Proof. induction k as [|k IH]; [reflexivity|]. cbn [repeat existsb]. exact IH. Qed.
-Lemma norm_index_ellipsis (strict its : bool) (pre post : list item) (shape : list Z) :
+Lemma norm_index_ellipsis (its : bool) (pre post : list item) (shape : list Z) :
   existsb is_ell pre = false -> existsb is_ell post = false ->
   (length pre + length post <= length shape)%nat ->
-  norm_index strict (ETuple (pre ++ IEll :: post)) shape its =
-  norm_index strict (ETuple (pre ++ repeat full_slice (length shape - length pre - length post) ++ post)) shape its.
+  norm_index (ETuple (pre ++ IEll :: post)) shape its =
+  norm_index (ETuple (pre ++ repeat full_slice (length shape - length pre - length post) ++ post)) shape its.
 Proof.
   intros Hp Hq Hl. unfold norm_index, norm_index_list, items_of.
   assert (He : existsb is_ell (pre ++ IEll :: post) = true).
@@ -198,13 +198,13 @@ Proof.
   rewrite Hl2, Nat.ltb_irrefl. cbn [andb]. rewrite He2. reflexivity.
 Qed.
 (* fewer indices than axes (no Ellipsis): filled up from the right *)
-Lemma norm_index_too_few (strict its : bool) (items : list item) (shape : list Z) :
+Lemma norm_index_too_few (its : bool) (items : list item) (shape : list Z) :
   existsb is_ell items = false -> (length items < length shape)%nat ->
-  norm_index strict (ETuple items) shape its =
-  norm_index strict (ETuple (items ++ repeat full_slice (length shape - length items))) shape its.
+  norm_index (ETuple items) shape its =
+  norm_index (ETuple (items ++ repeat full_slice (length shape - length items))) shape its.
 Proof.
   intros He Hl.
-  transitivity (norm_index strict (ETuple (items ++ IEll :: [])) shape its).
+  transitivity (norm_index (ETuple (items ++ IEll :: [])) shape its).
   - unfold norm_index, norm_index_list, items_of.
     replace (length items <? length shape)%nat with true by (symmetry; apply Nat.ltb_lt; exact Hl).
     rewrite He. cbn [negb andb].
@@ -216,23 +216,23 @@ Proof.
 Qed.
 
 (* once the index expression is normalised to good slices, every axis is cut independently *)
-Lemma getitem_after_norm (strict : bool) (p : list Raxis) (e : iexpr) (idx : list item) :
-  norm_index strict e (shape_of p) true = Ok idx ->
+Lemma getitem_after_norm (p : list Raxis) (e : iexpr) (idx : list item) :
+  norm_index e (shape_of p) true = Ok idx ->
   Forall valid p -> Forall2 good_item p idx -> empty_slice_check idx (shape_of p) = false ->
-  getitem_expr strict p e = Ok (map2 sub_item p idx) /\ Forall valid (map2 sub_item p idx).
+  getitem_expr p e = Ok (map2 sub_item p idx) /\ Forall valid (map2 sub_item p idx).
 Proof.
   intros Hn Hv Hg Hc. destruct (getitem_nd_parts p idx Hv Hg) as (H1 & H2 & H3 & H4 & H5).
   split; [|exact H3]. unfold getitem_expr. rewrite Hn. cbn [bind]. rewrite H1. cbn [bind].
   assert (Hl : length idx = length (shape_of p)) by (unfold shape_of; rewrite map_length; exact H5).
-  rewrite (norm_index_slices strict false idx _ H4 Hl Hc). cbn [bind]. rewrite H2. cbn [bind].
+  rewrite (norm_index_slices false idx _ H4 Hl Hc). cbn [bind]. rewrite H2. cbn [bind].
   apply mk_part_valid. exact H3.
 Qed.
 (* p[i_1, ..., i_d], every entry an in-range integer or a slice *)
-Lemma getitem_ints_and_slices (strict : bool) (p : list Raxis) (items : list item) :
+Lemma getitem_ints_and_slices (p : list Raxis) (items : list item) :
   Forall valid p -> Forall2 int_ok items (shape_of p) ->
   Forall2 good_item p (map2 to_slice items (shape_of p)) ->
   empty_slice_check (map2 to_slice items (shape_of p)) (shape_of p) = false ->
-  getitem strict p (ETuple items) = Ok (map2 sub_item p (map2 to_slice items (shape_of p))) /\
+  getitem p (ETuple items) = Ok (map2 sub_item p (map2 to_slice items (shape_of p))) /\
   Forall valid (map2 sub_item p (map2 to_slice items (shape_of p))).
 Proof.
   intros Hv Hok Hg Hc. unfold getitem. apply getitem_after_norm; auto.
